@@ -31,7 +31,7 @@ pub type TE = TypeExpression;
 /// These types are combined through use of a unifier that tries to discover
 /// non-conflicting patterns of evidence in the evidence for each value. It is
 /// this process that produces the best-known types for the storage slots.
-#[derive(Clone, Debug, Eq, Hash, PartialEq)]
+#[derive(Clone, Debug, Eq, Hash, Ord, PartialEq, PartialOrd)]
 pub enum TypeExpression {
     /// Nothing is known about the type.
     Any,
@@ -280,7 +280,7 @@ impl Display for TypeExpression {
 pub type InferenceSet = HashSet<TypeExpression>;
 
 /// A representation of the special ways in which a word could be used.
-#[derive(Copy, Clone, Debug, Eq, Hash, PartialEq)]
+#[derive(Copy, Clone, Debug, Eq, Hash, Ord, PartialEq, PartialOrd)]
 pub enum WordUse {
     /// The word is used as data (equivalent to `bytesN`) where we know nothing
     /// more about it.
